@@ -64,7 +64,7 @@ class RemoteValueSetpointShift(RemoteValue[float]):
                 f"Setpoint shift DPT not initialized for {self.device_name}"
             )
         if self._internal_dpt_class == DPTValue1Count:
-            converted_value = int(value / self.setpoint_shift_step)
+            converted_value = round(value / self.setpoint_shift_step)
             return DPTValue1Count.to_knx(converted_value)
         return DPTTemperature.to_knx(value)
 
